@@ -298,7 +298,10 @@ where
                         for (name, failed, b) in forms {
                             n += 1;
                             let got: (Vec<u128>, u128) = (to_u128(b.bulk()), b.state().into());
-                            if !failed || got != want_fail {
+                            // (either the items in front of the impossible one are on the stack, as with the per-symbol loop, or the
+                            // whole batch was rolled back: the property does not say which; anything else is a corrupted coder)
+                            let rolled_back: (Vec<u128>, u128) = (to_u128(base.bulk()), base.state().into());
+                            if !failed || (got != want_fail && got != rolled_back) {
                                 bad.push((format!("AnsCoder::{name} | {} | a batch with an impossible symbol differs from the per-symbol loop", C::NAME),
                                     format!("init {:x?} letters {:?} impossible symbol at {k}: error reported: {failed}, coder {:x?} vs loop {:x?}", init, s, got, want_fail), json!({"kind": "none"})));
                             }
